@@ -287,9 +287,15 @@ func runC10(o *Out, rng *Rng, tier string, replay string) {
 			bits := []int{0x40, 0x60, 0x50, 0x20}[(c/5)%4]
 			s = genProtocol(r, wd, false, "C10", bits)
 			o.Count(fmt.Sprintf("protocol_history_option_bits_%#x", bits))
+		} else if c%5 == 1 {
+			s = genC10Delayed(r, wd)
+		} else if c%5 == 2 && c%2 == 0 {
+			s = genC10FullBook(r, wd)
+			o.CountN("full_book_requests_while_oldest_trip_in_progress", s.stat["c10_fullbook_requests"])
 		} else {
 			s = genEngine(r, wd, "C10", cfg)
 		}
+		o.CountN("make_ok_after_updates_changed_the_record", s.stat["c10_delayed_make_ok"])
 		keepFails(o, s, "C10")
 		engNote(o, s)
 		refused := 0
@@ -302,4 +308,146 @@ func runC10(o *Out, rng *Rng, tier string, replay string) {
 		s.close()
 	}
 	engFlush(o, "C10")
+}
+
+// genC10Delayed: proposals that are made only after one or more daily updates have changed the
+// traveller's record (credits, trip markers, a kept promise) while the prediction model may or may
+// not have moved: with an unchanged model Make must succeed and change nothing but the promises.
+func genC10Delayed(rng *Rng, workdir string) *engSession {
+	s := newEngSession(workdir, "all")
+	var p flap.FlapParams
+	p.TripLength, p.FlightsInTrip, p.FlightInterval = flap.Days(rng.Range(4, 30)), uint64(rng.Range(3, 20)), 1
+	p.DailyTotal = flap.Kilometres(100 * float64(rng.Range(1, 50)))
+	p.MinGrounded = uint64(rng.Range(0, 2))
+	p.Promises.Algo = flap.PromisesAlgo(1 + rng.Intn(2))
+	p.Promises.MaxPoints = uint32(rng.Range(3, 12))
+	p.Promises.MaxDays = flap.Days(rng.Range(20, 60))
+	p.Promises.MaxStackSize = flap.StackIndex(rng.Range(1, 3))
+	p.Promises.SmoothWindow = flap.Days(rng.Range(0, 3))
+	p.Promises.Degree = 1
+	p.Threads = 1
+	s.setParams(p)
+	used := map[string]bool{}
+	nTrav := rng.Range(1, 3)
+	for i := 0; i < nTrav; i++ {
+		s.addTraveller(passportWithPrefix(rng, -1, used))
+	}
+	day := uint64(rng.Range(17500, 19500))
+	// some days of constant share first in half of the sessions, so that the fitted line is flat and stays put
+	warm := 0
+	if rng.Bool() {
+		warm = rng.Range(2, 6)
+	}
+	for d := 0; d < warm; d++ {
+		s.update(day * 86400)
+		day++
+	}
+	type pend struct {
+		i, slot int
+		ver     uint64
+		age     int
+	}
+	var waiting []pend
+	for d := 0; d < rng.Range(6, 14); d++ {
+		now := day * 86400
+		s.update(now)
+		for k := range waiting {
+			waiting[k].age++
+		}
+		// make what has waited long enough
+		var rest []pend
+		for _, w := range waiting {
+			if w.age >= 1 && rng.Chance(2, 3) {
+				before, had := s.get(w.i)
+				rc := s.make(w.i, w.slot, now+100, w.ver)
+				if rc == 0 && had {
+					_ = before
+					s.stat["c10_delayed_make_ok"]++
+				}
+			} else {
+				rest = append(rest, w)
+			}
+		}
+		waiting = rest
+		for i := 0; i < nTrav; i++ {
+			// a debiting flight now and then keeps the record changing under the daily update
+			if rng.Chance(1, 2) {
+				st := now + uint64(rng.Range(100, 80000))
+				f := flap.VerifFlight{Start: flap.EpochTime(st), End: flap.EpochTime(st + 3000), From: icaoOf(rng.Intn(4)), To: icaoOf(4 + rng.Intn(3)), Distance: flap.Kilometres(50 + 2000*rng.F01())}
+				s.submit(i, []flap.VerifFlight{f}, st, true)
+			}
+			if rng.Chance(1, 2) {
+				sd := day + uint64(rng.Range(2, 15))
+				l := uint64(rng.Range(1, 3))
+				fs := []flap.VerifFlight{
+					{Start: flap.EpochTime(sd * 86400), End: flap.EpochTime(sd*86400 + 1), From: icaoOf(1), To: icaoOf(2), Distance: 700},
+					{Start: flap.EpochTime((sd+l)*86400 + 86398), End: flap.EpochTime((sd+l)*86400 + 86399), From: icaoOf(2), To: icaoOf(1), Distance: 700},
+				}
+				code, slot := s.propose(i, fs, 0, now+200)
+				if code == 0 {
+					waiting = append(waiting, pend{i, slot, s.props[slot].VerifVersion(), 0})
+				}
+			}
+		}
+		day++
+	}
+	return s
+}
+
+// genC10FullBook: a full book whose oldest promise was brought forward to let a trip start on the day
+// its own trip ends (so its clearance date lies before its trip end); proposals are then requested at
+// moments before and after that clearance date and before and after the end of the oldest trip.
+func genC10FullBook(rng *Rng, workdir string) *engSession {
+	s := newEngSession(workdir, "C10")
+	var p flap.FlapParams
+	p.TripLength, p.FlightsInTrip, p.FlightInterval = 20, 10, 1
+	p.DailyTotal = flap.Kilometres(40000 + 20000*rng.F01())
+	p.MinGrounded = 1
+	p.Promises.Algo = flap.PromisesAlgo(1 + rng.Intn(2))
+	p.Promises.MaxPoints = uint32(rng.Range(4, 10))
+	p.Promises.MaxDays = 150
+	p.Promises.MaxStackSize = flap.StackIndex(rng.Range(1, 3))
+	p.Promises.SmoothWindow = 1
+	p.Promises.Degree = 1
+	p.Threads = 1
+	s.setParams(p)
+	used := map[string]bool{}
+	s.addTraveller(passportWithPrefix(rng, -1, used))
+	day := uint64(rng.Range(17500, 19500))
+	for k := 0; k < rng.Range(3, 6); k++ {
+		s.update(day * 86400)
+		day++
+	}
+	s.update(day * 86400)
+	now := day*86400 + 100
+	trip := func(d1 uint64, s1 uint64, d2 uint64, s2 uint64) []flap.VerifFlight {
+		return []flap.VerifFlight{
+			{Start: flap.EpochTime(d1*86400 + s1), End: flap.EpochTime(d1*86400 + s1 + 3000), From: icaoOf(1), To: icaoOf(2), Distance: flap.Kilometres(300 + 400*rng.F01())},
+			{Start: flap.EpochTime(d2*86400 + s2 - 3000), End: flap.EpochTime(d2*86400 + s2), From: icaoOf(2), To: icaoOf(1), Distance: flap.Kilometres(300 + 400*rng.F01())},
+		}
+	}
+	plan := func(fs []flap.VerifFlight, at uint64) bool {
+		code, slot := s.propose(0, fs, 0, at)
+		return code == 0 && s.make(0, slot, at+1, s.props[slot].VerifVersion()) == 0
+	}
+	endA := uint64(rng.Range(30000, 50000))
+	okA := plan(trip(day+1, 1000, day+2, endA), now)                                  // A ends on day+2 ...
+	okB := plan(trip(day+2, endA+uint64(rng.Range(5000, 20000)), day+3, 70000), now+10) // ... B starts later that day
+	made := 0
+	for k := 0; k < 8; k++ {
+		d := day + 8 + uint64(6*k)
+		if plan(trip(d, 2000, d+1, 60000), now+uint64(20+10*k)) {
+			made++
+		}
+	}
+	if !(okA && okB && made == 8) {
+		return s
+	}
+	// requests on the day the oldest trip ends: after its (brought forward) clearance date, before / after its end
+	for _, at := range []uint64{(day+2)*86400 + 5, (day+2)*86400 + endA - 10, (day+2)*86400 + endA, (day+2)*86400 + endA + 1, (day+3)*86400 + 10} {
+		d := day + 90 + uint64(rng.Range(0, 20))
+		s.propose(0, trip(d, 3000, d+1, 50000), 0, at)
+		s.stat["c10_fullbook_requests"]++
+	}
+	return s
 }
